@@ -743,13 +743,20 @@ class BlockBase(Base):
             while i < len(classes):
                 if enable_do_label_construct_hook:
                     # Multiple, labelled DO statements can reference the
-                    # same label.
+                    # same label. Comments, includes and directives between
+                    # them must not hide the next DO statement, so look past
+                    # them (and put them back if no such DO follows).
+                    skipped = []
+                    DynamicImport.add_comments_includes_directives(skipped, reader)
                     obj = startcls(reader)
                     if obj is not None and hasattr(obj, "get_start_label"):
                         if start_label == obj.get_start_label():
+                            content.extend(skipped)
                             content.append(obj)
                             continue
                         obj.restore_reader(reader)
+                    for skipped_obj in reversed(skipped):
+                        skipped_obj.restore_reader(reader)
                 # Attempt to match the i'th subclass
                 cls = classes[i]
                 try:
